@@ -785,6 +785,8 @@ PROPS = {
     ),
 }
 
+scan_szx_min_sizes.bounded_stand_in = "szx"
+
 for _p in PROPS:
     NOT_APPLICABLE.pop(_p, None)
 
